@@ -13,9 +13,10 @@ DIE = ('strerr_die', 'strerr_die1x', 'strerr_die2x', 'strerr_die3x', 'strerr_die
 
 
 class SearchHooks(libtab.SAConc, QHooks):
-    """qmesearch on concrete strings: dash "-", an extension given byte by byte; qmeexists() answers "no such file" or "found" """
+    """qmesearch on concrete strings: dash "-", an extension given byte by byte; open_read() answers "no such file" or "found" (a regular file)"""
     def __init__(self):
         self.ends = []
+        self.dies = []
 
     def tracked_global(self, path):
         return True
@@ -23,11 +24,43 @@ class SearchHooks(libtab.SAConc, QHooks):
     def precise_arith(self, path):
         return True
 
-    def prim_qmeexists(self, E, x, args):
-        name = self.sa_bytes(E, 'G:qme')
+    # the file system under the search: open_read() finds a candidate or not (ENOENT); what is found is a regular file of mode self.mode
+    mode = 0o100644
+    only_first = False      # only the first candidate exists (the mode table of rule 2)
+
+    def prim_open_read(self, E, x, args):
+        name = self.cstring(E, libtab._one(args[0]))
         seq = tuple(g1(E, '$cands', ())) + (name,)
-        return [Outcome(ret=fs(0), sets={'$cands': fs(seq)}, log='%r does not exist' % name),
-                Outcome(ret=fs(1), sets={'$cands': fs(seq), '$found': fs(len(seq) - 1)}, log='%r exists' % name)]
+        outs = [Outcome(ret=fs(-1), sets={'$cands': fs(seq), '$errno': fs(2)}, log='%r does not exist' % name)]
+        if not self.only_first or len(seq) == 1:
+            outs.append(Outcome(ret=fs(7), sets={'$cands': fs(seq), '$found': fs(len(seq) - 1)}, log='%r exists' % name))
+            if self.only_first:
+                outs = outs[1:]
+        return outs
+
+    def prim___errno_location(self, E, x, args):
+        return [Outcome(ret=fs(('&', '$errno')))]
+
+    def prim_error_temp(self, E, x, args):
+        return [Outcome(ret=fs(0))]
+
+    def prim_fstat(self, E, x, args):
+        sp = libtab._one(args[1])
+        if not (isinstance(sp, tuple) and sp[0] == '&'):
+            raise AnalysisBroken('%s: fstat() buffer is not an object address' % x.where)
+        modes = self.mode if isinstance(self.mode, tuple) else (self.mode,)
+        return [Outcome(ret=fs(0), sets={sp[1] + '.st_mode': fs(m_), '$mode': fs(m_)}) for m_ in modes]
+
+    def prim_close(self, E, x, args):
+        E.set('$closed', fs(1))
+        if g1(E, '$found') is not None:
+            E.set('$found', TOP)        # found, but not a regular file: the search goes on
+            E.set('$ignored', fs(1))
+        return [Outcome(ret=fs(0))]
+
+    def prim_strerr_die(self, E, x, args):
+        self.dies.append((g1(E, '$mode'), libtab._one(args[0])))
+        return 'noreturn'
 
     def prim_env_put2(self, E, x, args):
         E.set('$env', fs((self.cstring(E, libtab._one(args[0])), self.cstring(E, libtab._one(args[1])))))
@@ -41,6 +74,8 @@ class SearchHooks(libtab.SAConc, QHooks):
     def on_return(self, E, fn, val):
         if fn.name == 'qmesearch':
             self.ends.append((tuple(g1(E, '$cands', ())), g1(E, '$found'), g1(E, 'FD'), g1(E, '$env'), E.trace.list()))
+            self.last = (g1(E, '$mode'), g1(E, 'FD'), g1(E, 'CUT'), g1(E, '$closed', 0), g1(E, '$ignored', 0))
+            self.rows = getattr(self, 'rows', []) + [self.last]
 
 
 def search_reference(ext):
@@ -587,77 +622,36 @@ def run(ctx):
     chc = mainf.calls('checkhome')
     dels = mainf.calls(('maildir', 'mailfile', 'mailprogram', 'mailforward', 'qmesearch'))
     r2.check(bool(chc) and all(mainf.dominates(chc[0], d) for d in dels), 'checkhome-before-any-delivery', mainf.unit + ':main', '')
-    qe = prog.fn('qmeexists', 'qmail-local.c')
-
-    class QE(QHooks):
-        MODES = (0o100644, 0o100664, 0o100646, 0o100744, 0o100764, 0o040755, 0o100600, 0o020666)
-
-        def __init__(self):
-            self.tab = {}
-
-        def tracked_global(self, path):
-            return True
-
-        def precise_arith(self, path):
-            return True
-
-        def prim_stralloc_append(self, E, x, args):
-            return [Outcome(ret=fs(1))]
-
-        prim_stralloc_0 = prim_stralloc_append
-
-        def prim_open_read(self, E, x, args):
-            return [Outcome(ret=fs(-1), sets={'$open': fs(0)}), Outcome(ret=fs(7), sets={'$open': fs(1)})]
-
-        def prim___errno_location(self, E, x, args):
-            return [Outcome(ret=fs(('&', '$errno')))]
-
-        def prim_error_temp(self, E, x, args):
-            return [Outcome(ret=fs(0))]
-
-        def prim_fstat(self, E, x, args):
-            sp = None
-            if args[1] is not TOP and len(args[1]) == 1:
-                (a_,) = args[1]
-                if isinstance(a_, tuple) and a_[0] == '&':
-                    sp = a_[1]
-            if sp is None:
-                raise AnalysisBroken('qmeexists: fstat() buffer is not an object address')
-            return [Outcome(ret=fs(0), sets={sp + '.st_mode': fs(m_), '$mode': fs(m_)}) for m_ in self.MODES]
-
-        def prim_close(self, E, x, args):
-            E.set('$closed', fs(1))
-            return [Outcome(ret=TOP)]
-
-        def prim_temp_qmail(self, E, x, args):
-            return 'noreturn'
-
-        def prim_strerr_die(self, E, x, args):
-            if g1(E, '$mode') is not None:
-                self.tab.setdefault(g1(E, '$mode'), set()).add(('exit', next(iter(args[0])) if args[0] is not TOP and len(args[0]) == 1 else None))
-            return 'noreturn'
-
-        def on_return(self, E, fn, val):
-            if fn.name == 'qmeexists' and g1(E, '$mode') is not None:
-                r_ = next(iter(val)) if val is not TOP and len(val) == 1 else None
-                self.tab.setdefault(g1(E, '$mode'), set()).add(('ret', r_, g1(E, 'CUT') if r_ == 1 else None, g1(E, '$closed', 0)))
-    qh = QE()
-    e = Engine(db, prog, qh)
-    fid = e.frame_id(qe)
-    e.run(qe, {'%s::%s' % (fid, qe.params[0]): fs(('&', 'FDV')), '%s::%s' % (fid, qe.params[1]): fs(('&', 'CUT')), 'G:auto_patrn': fs(0o022), '$errno': fs(2)})
+    qsf = prog.fn('qmesearch', 'qmail-local.c')
+    MODES = (0o100644, 0o100664, 0o100646, 0o100744, 0o100764, 0o040755, 0o100600, 0o020666)
+    qh = SearchHooks()
+    qh.mode, qh.only_first = MODES, True
+    e = Engine(db, prog, qh, max_states=300000)
+    fid = e.frame_id(qsf)
+    st_ = {'%s::%s' % (fid, qsf.params[0]): fs(('&', 'FD')), '%s::%s' % (fid, qsf.params[1]): fs(('&', 'CUT')), 'G:auto_patrn': fs(0o022),
+           'G:dash': fs(('&', 'DASH[0]')), 'G:ext': fs(('&', 'EXT[0]')), 'G:safeext.s': fs(('&', 'G:safeext.s[0]')), 'G:safeext.len': fs(1)}
+    st_.update(libtab.conc_string_cells('DASH', b'-'))
+    st_.update(libtab.conc_string_cells('EXT', b'X'))
+    st_.update(libtab.conc_string_cells('G:safeext.s', b'x', terminate=False))
+    e.run(qsf, st_)
     rep.count_states(e.states, e.transitions)
+    tab = {}
+    for m_, code in qh.dies:
+        tab.setdefault(m_, set()).add(('exit', code))
+    for m_, fdv, cut, closed, ignored in getattr(qh, 'rows', []):
+        tab.setdefault(m_, set()).add(('found', cut) if fdv == 7 else ('ignored', closed))
     badq = []
-    for m_ in QE.MODES:
-        got = qh.tab.get(m_, set())
+    for m_ in MODES:
+        got = tab.get(m_, set())
         if (m_ & 0o170000) != 0o100000:
-            want = {('ret', 0, None, 1)}
+            want = {('ignored', 1)}
         elif m_ & 0o022:
             want = {('exit', 111)}
         else:
-            want = {('ret', 1, 1 if m_ & 0o100 else 0, 0)}
+            want = {('found', 1 if m_ & 0o100 else 0)}
         if got != want:
             badq.append((oct(m_), sorted(got, key=str), sorted(want, key=str)))
-    r2.check(not badq, 'writable-.qmail-refused', qe.unit + ':qmeexists',
+    r2.check(not badq, 'writable-.qmail-refused', 'qmail-local.c:qmesearch',
              '(.qmail mode -> outcome, documented): %s; a group/world-writable .qmail must stop the delivery (111), a non-regular file is closed and ignored, the x bit selects forward-only' % badq[:3])
     its = interp_sites(db, rep, prog)
     v = its['file-and-program-deliveries-refused-under-forward-only']
